@@ -950,10 +950,13 @@ func genEncGrid(p func(string, ...any)) {
 	// Go time.Time values (the encoder writes them as untagged epoch integers) and arrays longer
 	// than any small limit, in either bucket and inside a signer slot: always decodable
 	for _, v := range []string{"tm:1700000000", "tm:0", "tm:-1", "[tm:1700000000,i64:1]", "{i64:1=tm:1700000000}"} {
-		p("enc ph {i64:1=a:-7,i64:99=%s}", v)
-		p("enc uh {i64:99=%s}", v)
-		p("enc s1 S1(H(-;{i64:1=a:-7};-;{i64:99=%s});00;01)", v)
-		p("enc sm SM(H(-;{};-;{i64:99=%s});00;[cs(H(-;{i64:1=a:-7};-;{i64:98=%s});01)])", v, v)
+		// `!rt`: a value of the supported data model — the encoder's output must be accepted by the
+		// decoder whatever the Lean model says about it (here: nothing, time values are outside it)
+		p("enc ph {i64:1=a:-7,i64:99=%s} !rt", v)
+		p("enc uh {i64:99=%s} !rt", v)
+		p("enc s1 S1(H(-;{i64:1=a:-7};-;{i64:99=%s});00;01) !rt", v)
+		p("enc sm SM(H(-;{};-;{i64:99=%s});00;[cs(H(-;{i64:1=a:-7};-;{i64:98=%s});01)]) !rt", v, v)
+		p("enc sig cs(H(-;{i64:1=a:-7};-;{i64:98=%s});01) !rt", v)
 		p("s1 t S1(H(-;{i64:1=a:-7,i64:99=%s};-;{i64:98=%s});00;-) - T:-7:1 T:-7:1 a", v, v)
 	}
 	for _, n := range []int{16, 17, 23, 24, 25, 100, 255, 256, 257} {
